@@ -385,7 +385,7 @@ def materialise(desc) -> Structure:
                 if (i, k) in drop:
                     continue
                 out_name = k
-                if altmod and k in inv:
+                if altmod and k in inv and (topo.heavy(k) or not ch.get("altheavy")):
                     counter += 1
                     if counter % altmod == 0:
                         cand = [a for a in inv[k] if a not in used]
